@@ -52,8 +52,8 @@ CHECKS.update({
         design="§6 C05",
     ),
     "C08": dict(
-        text="Lean 4 theorems over regenerated tables: the model's materialisation dispatch covers every registered (algorithm, op, function); shipped recipes load, are single '.*'/'*' rules and carry policy-accepted configs. Rejection-freedom on generated supported-op graphs is established by execution of all shipped recipes on generated normal-form models (no tied constants).",
-        note="the totality theorem (no raise site reachable for shipped recipes) is NOT proved: this check's guarantee beyond the table theorems is exploration-level",
+        text="Lean 4 theorems: (1) over regenerated tables: the model's materialisation dispatch covers every registered (algorithm, op, function); shipped recipes load, are single '.*'/'*' rules and carry policy-accepted configs; (2) TOTALITY of the graph stage (QProps/C08b): for every well-formed model and every request set of the closed shape whose parameters are in the table and which does not mix 'unquantized' with 'quantize in place' on one tensor, instruction generation + performer cannot raise (modify_total, performer_total) and return a well-formed graph (modify_total_wf); each added hypothesis is shown necessary by a kernel-checked counterexample. Rejection-freedom of the whole pipeline is executed: all shipped recipes x generated normal-form models (incl. reshape-to-scalar, bool outputs, unnamed single signatures).",
+        note="raise sites inside materialisation (non-finite statistics, missing statistics — excluded by C10.stats_complete after calibration —, buffer-sharing refusals) are not covered by a totality theorem: that part is exploration-level; D28 (empty constants) was found and fixed this way",
         design="§6 C08",
     ),
     "C09": dict(
